@@ -99,7 +99,8 @@ def edges_for_shape(rng, names, shape, p=0.5):
 def gen_dcop(rng, n_range=(1, 6), dom_range=(1, 3), shapes=("random",), arity3_p=0.0,
              unary_p=0.0, varcost_p=0.0, cost_classes=("small",), objective=None,
              str_domain_p=0.15, initial_p=0.0, renders=("matrix", "expr"),
-             edge_p=None, max_space=4096, names=None, parallel_p=0.12, extra_unary=0):
+             edge_p=None, max_space=4096, names=None, parallel_p=0.12, extra_unary=0,
+             mixed_domain_p=0.0):
     """Generate the problem part of a case."""
     objective = objective or rng.choice(["min", "max"])
     cls = rng.choice(list(cost_classes))
@@ -116,7 +117,11 @@ def gen_dcop(rng, n_range=(1, 6), dom_range=(1, 3), shapes=("random",), arity3_p
         while space * size > max_space and size > 1:
             size -= 1
         space *= size
-        if rng.random() < str_domain_p:
+        if size >= 2 and rng.random() < mixed_domain_p:
+            # numbers and strings in one domain (legal: yaml `values: [0, 1, auto]`)
+            k = rng.randint(1, size - 1)
+            vals = list(range(k)) + [chr(ord("a") + i) for i in range(size - k)]
+        elif rng.random() < str_domain_p:
             vals = [chr(ord("a") + i) for i in range(size)]
         else:
             # not necessarily 0-based: exposes index/value confusions
